@@ -171,3 +171,46 @@ def enum_spec(values, shape, nullpos=0):
             "paths": {"/op": {"post": {"operationId": "op", "requestBody": dict(body, required=True),
                                        "responses": {"200": dict(body, description="ok")}}}},
             "components": {"schemas": {"E": e, "Holder": holder}}}
+# ---- C13: type sharing -------------------------------------------------------------------------
+SHARE_POOL = {
+    "A": {"type": "object", "required": ["kind"], "properties": {"kind": {"type": "string"}, "x": {"type": "string"}}},
+    "B": {"type": "object", "required": ["kind"], "properties": {"kind": {"type": "string"}, "y": {"type": "integer"}}},
+    "C": {"type": "object", "required": ["kind"], "properties": {"kind": {"type": "string"}, "z": {"type": "boolean"}}},
+}
+
+
+def share_spec(occs, extra=None):
+    """occs: [{"site": {"kind":"named","name":N} | {"kind":"prop"|"items","holder":H,"prop":p}, "schema": S}]
+    -> one OpenAPI document with the fixed pool A,B,C, the named occurrences, and holder objects."""
+    s = {"openapi": "3.1.0", "info": {"title": "t", "version": "1"}, "paths": {}, "components": {"schemas": copy.deepcopy(SHARE_POOL)}}
+    sch = s["components"]["schemas"]
+    for o in occs:
+        site = o["site"]
+        if site["kind"] == "named":
+            if site["name"] in sch:
+                raise ValueError("duplicate name")
+            sch[site["name"]] = copy.deepcopy(o["schema"])
+        else:
+            h = sch.setdefault(site["holder"], {"type": "object", "properties": {}})
+            if site["prop"] in h["properties"]:
+                raise ValueError("duplicate site")
+            body = copy.deepcopy(o["schema"])
+            h["properties"][site["prop"]] = body if site["kind"] == "prop" else {"type": "array", "items": body}
+    if extra:
+        if extra["name"] in sch:
+            raise ValueError("duplicate name")
+        sch[extra["name"]] = copy.deepcopy(extra["schema"])
+    return s
+
+
+def multi_resp_spec(ops):
+    """ops: [{"opid","path","responses":[[key,[[ct,kind]…]]…], "desc"?: str}] -> one document"""
+    s = base_spec()
+    for o in ops:
+        one = resp_spec(o["responses"], path=o["path"], opid=o["opid"])
+        item = one["paths"][o["path"]]
+        if o.get("desc"):
+            for r in item["get"]["responses"].values():
+                r["description"] = o["desc"]
+        s["paths"][o["path"]] = item
+    return s
